@@ -64,7 +64,9 @@ def strategy(tier):
     return st.fixed_dictionaries({"module": G.module(p), "layout": G.layout_choices(16),
                                   "off": st.lists(off, min_size=1, max_size=3 if tier == "quick" else 6),
                                   # a class declared twice: first with undocumented members only, then with documented ones
-                                  "twin_class": st.sampled_from([None, None, "attr", "member", "ctor"])})
+                                  "twin_class": st.sampled_from([None, None, "attr", "member", "ctor"]),
+                                  # one Settings object for all runs, its options changed in place between them
+                                  "reuse_settings": st.sampled_from([False, False, True])})
 
 
 def index_nodes(page):
@@ -125,7 +127,10 @@ def evaluate(case):
     if case.get("twin_class"):
         res.labels.append("class-declared-twice")
     src = R.render(module, case["layout"])
-    base = document_text(src, real_settings(M.MSettings()))
+    shared = real_settings(M.MSettings())
+    if case.get("reuse_settings"):
+        res.labels.append("one-settings-object-mutated-in-place")
+    base = document_text(src, shared if case.get("reuse_settings") else real_settings(M.MSettings()))
     if base.exc is not None:
         res.fail("default:" + exc_key(base.exc), repr(base.exc)[:300])
         return res
@@ -152,7 +157,12 @@ def evaluate(case):
         res.labels.append(f"flags-off:{len(off)}")
         if set(off) & both:
             nt = True
-        run = document_text(src, real_settings(ms))
+        if case.get("reuse_settings"):
+            for k in KINDS:
+                setattr(shared.input, f"include_undocumented_{k}", flags[k])
+            run = document_text(src, shared)
+        else:
+            run = document_text(src, real_settings(ms))
         if run.exc is not None:
             res.fail(exc_key(run.exc), f"off={off}: {run.exc!r}"[:300])
             continue
